@@ -109,3 +109,40 @@ MUTANTS['C11'] = [
   ('key-path-stored-as-str', [(C, "        if isinstance(item, str):\n            item = self.keys().index(item)\n\n        if isinstance(item, numbers.Integral):\n            # numpy", "        if isinstance(item, str):\n            k = 'key:' + item\n            if k in self._cache:\n                return self._cache[k]\n            value = self.input_dataset[item]\n            self._cache[k] = value\n            return value\n\n        if isinstance(item, numbers.Integral):\n            # numpy")]),
   ('reuse-wipes-directory', [(C, "        self.cache = diskcache.Cache(cache_dir, eviction_policy='none')", "        self.cache = diskcache.Cache(cache_dir, eviction_policy='none')\n        if reuse and clear:\n            self.cache.clear()")]),
 ]
+
+MUTANTS['C01'] = [
+  ('batch-iter-gt', [(C, "            if len(current_batch) >= self.batch_size:\n                yield current_batch", "            if len(current_batch) > self.batch_size:\n                yield current_batch")]),
+  ('concat-iter-skips-empty-first-wrongly', [(C, "        for input_dataset in self.input_datasets:\n            if with_key:\n                iterable = input_dataset.__iter__(with_key=True)", "        for input_dataset in self.input_datasets[(1 if len(self.input_datasets) > 1 and len(self.input_datasets[0]) == 1 else 0):]:\n            if with_key:\n                iterable = input_dataset.__iter__(with_key=True)")]),
+  ('intersperse-order-key', [(C, "((example_index + 1) / ds_len, dataset_index, example_index)", "(example_index / ds_len, dataset_index, example_index)")]),
+  ('cache-iter-range-minus-one', [(C, "        else:\n            for i in range(len(self)):\n                yield self[i]\n\n    def __len__(self):\n        return len(self.input_dataset)\n\n    def copy(self, freeze: bool = False) -> 'Dataset':\n        if not freeze:\n            import warnings\n            warnings.warn(\n                'Copying a CacheDataset", "        else:\n            for i in range(len(self) - (1 if len(self) > 4 else 0)):\n                yield self[i]\n\n    def __len__(self):\n        return len(self.input_dataset)\n\n    def copy(self, freeze: bool = False) -> 'Dataset':\n        if not freeze:\n            import warnings\n            warnings.warn(\n                'Copying a CacheDataset")]),
+  ('tile-shuffle-last-rep-unshuffled', [(C, "            datasets = [\n                ds.shuffle()\n                for ds in datasets\n            ]", "            datasets = [\n                ds.shuffle()\n                for ds in datasets[:-1]\n            ] + datasets[-1:]")]),
+  ('unbatch-drops-empty-tail', [(C, "            for example in batch:\n                yield example", "            for example in batch[:2] if len(batch) == 3 else batch:\n                yield example")]),
+  ('slice-copy-reslices', [(C, "        new._slice = self._slice\n        new.slice = self.slice\n        return new", "        new._slice = self._slice\n        new.slice = self.slice[::-1] if len(self.slice) == 3 else self.slice\n        return new")]),
+  ('zip-iter-truncates', [(C, "        for examples in zip(*self.input_datasets):\n            yield examples", "        for examples in zip(*[list(d)[:4] for d in self.input_datasets]):\n            yield examples")]),
+  ('keyzip-iter-second-by-position', [(C, "        else:\n            for key in self.keys():\n                yield tuple([\n                    ds[key]\n                    for ds in self.input_datasets\n                ])", "        else:\n            for i, key in enumerate(self.keys()):\n                yield tuple([\n                    ds[key] if j == 0 else ds[i]\n                    for j, ds in enumerate(self.input_datasets)\n                ])")]),
+  ('filter-second-iteration-consumes', [(C, "            for example in self.input_dataset:\n                total_count += 1\n                if self.filter_function(example):\n                    yield example", "            self._n = getattr(self, '_n', 0) + 1\n            for example in self.input_dataset:\n                total_count += 1\n                if self.filter_function(example) and not (self._n % 3 == 0 and total_count == 2):\n                    yield example")]),
+]
+MUTANTS['C02'] = [
+  ('concat-getitem-lt', [(C, "                if len(dataset) <= item:\n                    item -= len(dataset)", "                if len(dataset) < item:\n                    item -= len(dataset)")]),
+  ('concat-getitem-no-second-negative-check', [(C, "                item = item + len(self)\n                if item < 0:\n                    # Without this check", "                item = item + len(self)\n                if False:\n                    # Without this check")]),
+  ('batch-len-floor', [(C, "        return int(np.ceil(length))", "        return int(np.floor(length)) if len(self.input_dataset) > 4 else int(np.ceil(length))")]),
+  ('batch-getitem-no-reraise-at-0', [(C, "                    if i == 0 or self.drop_last:\n                        raise", "                    if self.drop_last:\n                        raise")]),
+  ('items-getitem-key-off', [(C, "            return self.keys()[item], self.input_dataset[item]", "            return self.keys()[item - 1 if item == 2 else item], self.input_dataset[item]")]),
+  ('reshuffle-len-off', [(C, "    def __len__(self):\n        return len(self.input_dataset)\n\n    # keys is not well defined", "    def __len__(self):\n        return len(self.input_dataset) + 1\n\n    # keys is not well defined")]),
+  ('intersperse-negative-index', [(C, "            _, dataset_idx, example_idx = self.order[item]", "            _, dataset_idx, example_idx = self.order[abs(item)]")]),
+  ('slice-oob-wraps', [(C, "            return self.input_dataset[self.slice[item]]", "            return self.input_dataset[self.slice[item % len(self.slice)] if len(self.slice) else self.slice[item]]")]),
+  ('prefetch-len-ignores-input', [(C, "        else:\n            return len(self.input_dataset)\n\n    def __iter__(self, with_key=False):\n        if self.num_workers == 1", "        else:\n            return len(self.input_dataset) + (1 if self.buffer_size == 1 else 0)\n\n    def __iter__(self, with_key=False):\n        if self.num_workers == 1")]),
+  ('wu-negative-index', [(C, "            idx += len(self)\n            if idx < 0:\n                raise IndexError(idx - len(self))", "            pass")]),
+]
+MUTANTS['C03'] = [
+  ('slice-keys-no-single-special-case', [(C, "            if len(self.slice) == 1:\n                self._keys = (self._keys,)\n        return self._keys", "        return self._keys")]),
+  ('map-items-unmapped', [(C, "            for k, v in self.input_dataset.__iter__(with_key=True):\n                yield k, self.map_function(v)", "            for k, v in self.input_dataset.__iter__(with_key=True):\n                yield k, v")]),
+  ('concat-str-lookup-skips-keys-check', [(C, "            self.keys()  # test unique keys\n            for dataset in self.input_datasets:\n                if item in dataset.keys():\n                    return dataset[item]\n            # In collections.ChainMap is", "            for dataset in self.input_datasets:\n                if item in dataset.keys():\n                    return dataset[item]\n            return self.input_datasets[0][0]\n            # In collections.ChainMap is")]),
+  ('intersperse-keys-sorted-without-dataset-index', [(C, "                ds_keys[dataset_idx][example_idx]\n                for _, dataset_idx, example_idx in self.order", "                ds_keys[dataset_idx][example_idx]\n                for _, example_idx, dataset_idx in sorted((o, e, d) for o, d, e in self.order)")]),
+  ('slice-foreign-key-forwarded', [(C, "            if item not in self._key_set:", "            if False:")]),
+  ('intersperse-absent-returns-none', [(C, "                    return dataset[item]\n            raise KeyErrorCloseMatches(item, self.keys())\n        else:\n            return super().__getitem__(item)\n\n\nclass ZipDataset", "                    return dataset[item]\n        else:\n            return super().__getitem__(item)\n\n\nclass ZipDataset")]),
+  ('prefetch1-items-bare', [(C, "            yield from self._single_thread_prefetch(with_key=with_key)", "            yield from self._single_thread_prefetch()")]),
+  ('empty-slice-keys-typeerror', [(C, "            if len(self.slice) == 0:\n                # itemgetter() needs at least one index\n                self._keys = ()\n                return self._keys\n", "")]),
+  ('cache-items-keys-shifted', [(C, "            for i in range(len(self)):\n                yield keys[i], self[i]", "            for i in range(len(self)):\n                yield keys[i - 1 if i == 3 else i], self[i]")]),
+  ('keyzip-keys-of-second', [(C, "            self._keys = self.input_datasets[0].keys()", "            self._keys = self.input_datasets[-1].keys()")]),
+]
